@@ -687,8 +687,6 @@ def fam_meta(tier):
     out = []
     for name, target, edit in PROP_DEFECTS:
         for ctx in CONTEXTS:
-            if target == "obj" and ctx == "arr.items.items":
-                pass
             base_sub = copy.deepcopy(TARGETS[target])
             bad_sub = copy.deepcopy(TARGETS[target])
             edit(bad_sub)
@@ -830,13 +828,6 @@ class Ctx:
 
     def fail(self, key, what):
         self.acc.fail(key, f"{what} | schema={_short(self.schema, 700)}", self.case)
-
-
-def _effective_top(schema, v):
-    """add_row(metadata=None) documents: None -> the schema's empty value."""
-    if v is None and not R.is_union_top(schema):
-        return {}
-    return v
 
 
 def _outcome(kind, schema, v):
@@ -1048,8 +1039,6 @@ def _np_expect(schema):
 
 
 def check_numpy(cx, schema, instances, oks):
-    import numpy as np
-
     acc = cx.acc
     sup, cands, size = _np_expect(schema)
     if sup is None:
@@ -1160,7 +1149,6 @@ def check_tables(cx, kind, schema, ms, oks, rejects, errors):
     tc = tskit.TableCollection(L)
     for name in TABLES:
         getattr(tc, name).metadata_schema = ms
-    nrows = {}
     expect = {}
     for ti, name in enumerate(TABLES):
         t = getattr(tc, name)
@@ -1172,8 +1160,6 @@ def check_tables(cx, kind, schema, ms, oks, rejects, errors):
         if name == "populations" and k:
             while len(rows) < 2:
                 rows = rows + [oks[0]]
-        if name == "nodes" and not k:
-            pass
         for i, (v, enc, dec) in enumerate(rows):
             st, rid = _call(_add, tc, name, i, copy.deepcopy(v), L)
             if st != "ok":
@@ -1181,7 +1167,6 @@ def check_tables(cx, kind, schema, ms, oks, rejects, errors):
                 return
             if rid != i:
                 cx.fail(f"table:add_row_id:{name}", f"add_row returned {rid} for row {i}")
-        nrows[name] = len(rows)
         expect[name] = rows
         snap = _snapshot(t)
         exp_bytes = b"".join(e for _, e, _ in rows)
@@ -1361,7 +1346,6 @@ SNAME = {"individuals": "individual", "nodes": "node", "edges": "edge", "migrati
 def check_cross(cx, kind, schema, ms, oks):
     """Every table must be read with ITS OWN schema: one table (rotating with the schema) carries
     the schema under test, the six others a decoy schema with a different layout."""
-    import numpy as np
     import tskit
 
     oks = _pick_oks(kind, schema, oks, 3)
